@@ -962,4 +962,134 @@ let () =
         match rand_int r 6 with 0 | 1 -> HNext | 2 -> HHint | 3 -> HNth Z.zero | 4 -> HNth (zi (rand_int r 4)) | _ -> HNth (zi (rand_int r 9))) in
       case ~be:(rand_int r 4 = 0) ~tenc ~count ~nrows ~pad ops
     done)
+
+(* ================================================================== mixed-operation histories of the other iterators *)
+(* c05.hist <kind> ...
+     E <cfg> <bytes> <j>*        CfiEntriesIter: clone the iterator after j items; every clone must continue exactly
+                                 like the original (expected = the plain traversal, as c05.ent)
+     I <cfg> <bytes> <j>         CallFrameInstructionIter of the first FDE that parses (CIE then FDE stream):
+                                 clone after j items, resume; expected = number of instructions and how each stream ends
+     T <cfg> <bytes> <j>         UnwindTable of the first FDE that parses: next_row j times, then into_current_row
+     L <hdr case> <j> <a>        EhHdrTable: iterate j rows, lookup(a) in between, drain; expected = rows, lookup result *)
+let first_fde dbg (c : cfg) sec : M.fde option =
+  match model_fdes dbg c sec with f :: _ -> Some f | [] -> None
+
+let count_items (items : CfaSpec.item list) : string =
+  let rec go n = function
+    | [] -> Printf.sprintf "%d:ok" n
+    | CfaSpec.It _ :: r -> go (n + 1) r
+    | CfaSpec.Bad e :: _ -> Printf.sprintf "%d:%s" n (Errnames.name e)
+    | CfaSpec.BadPanic :: _ -> raise Panicked
+    | CfaSpec.BadFuel :: _ -> raise Fuel in
+  go 0 items
+
+let hist_I_model dbg (c : cfg) sec : string = guard (fun () ->
+  match first_fde dbg c sec with
+  | None -> "ok nofde"
+  | Some f ->
+      let fi = U.fde_in_of c.be false f in
+      let d = RN.f_dparams fi in
+      "ok c" ^ count_items (RN.decode dbg d fi.RN.f_cie_off fi.RN.f_cie)
+      ^ " f" ^ count_items (RN.decode dbg d fi.RN.f_fde_off fi.RN.f_fde))
+
+let hist_T_model dbg (c : cfg) sec (j : int) : string = guard (fun () ->
+  match first_fde dbg c sec with
+  | None -> "ok nofde"
+  | Some f ->
+      let fi = U.fde_in_of c.be false f in
+      let caps = S_c06.caps_of_storage 0 in
+      (match RN.new_ctx caps with
+       | Res.Ok cx ->
+           if not (RN.valid_asize fi.RN.f_asize) then "err UnsupportedAddressSize" else
+           (match RN.table_new dbg caps fi cx with
+            | Res.Err e -> "err " ^ Errnames.name e
+            | Res.Panic -> raise Panicked | Res.OutOfFuel -> raise Fuel
+            | Res.Ok t0 ->
+                let d = RN.f_dparams fi in
+                let b = Buffer.create 64 in
+                Buffer.add_string b "ok";
+                let t = ref t0 and it = ref { RN.it_off = fi.RN.f_fde_off; it_bytes = fi.RN.f_fde } in
+                let stop = ref false in
+                for _ = 1 to j do
+                  if not !stop then begin
+                    let (r, (t', it')) = RN.next_row dbg caps d !t !it in
+                    t := t'; it := it';
+                    (match r with
+                     | Res.Ok (Some rw) -> Buffer.add_string b (Printf.sprintf " %s-%s" (string_of_n rw.RN.r_start) (string_of_n rw.RN.r_end))
+                     | Res.Ok None -> Buffer.add_string b " none"
+                     | Res.Err e -> Buffer.add_string b (" E" ^ Errnames.name e); stop := true
+                     | Res.Panic -> raise Panicked | Res.OutOfFuel -> raise Fuel)
+                  end
+                done;
+                (* into_current_row *)
+                (if !t.RN.t_cur_valid then
+                   (match RN.top !t.RN.t_ctx with
+                    | Res.Ok rw -> Buffer.add_string b (" cur=" ^ S_c06.pr_row rw)
+                    | _ -> raise Panicked)
+                 else Buffer.add_string b " cur=none");
+                Buffer.contents b)
+       | _ -> "panic"))
+
+let hist_L_model dbg (h : hcase) (j : int) (a : Z.t) : string = guard (fun () ->
+  let hbs = sbases_of h.hb in
+  match M.hdr_parse dbg h.hbe hbs (n_of_int h.hasz) (bytes_of_ints h.hbytes) with
+  | Res.Err e -> "err " ^ Errnames.name e
+  | Res.Panic -> raise Panicked | Res.OutOfFuel -> raise Fuel
+  | Res.Ok hd ->
+    (match M.hdr_table hd with
+     | None -> "ok notable"
+     | Some hd ->
+       let (rows, e) = get (M.tbl_all dbg hbs hd) in
+       let b = Buffer.create 64 in
+       Buffer.add_string b "ok rows";
+       List.iter (fun (x, y) -> Buffer.add_string b (" " ^ ptr_str x ^ ":" ^ ptr_str y)) rows;
+       (match e with None -> Buffer.add_string b " end" | Some e -> Buffer.add_string b (" err " ^ Errnames.name e));
+       ignore j;
+       Buffer.add_string b (" | " ^ (match M.hdr_lookup dbg hbs hd (n_of_z a) with
+         | Res.Ok p -> ptr_str p | Res.Err e -> Errnames.name e
+         | Res.Panic -> raise Panicked | Res.OutOfFuel -> raise Fuel));
+       Buffer.contents b))
+
+let () =
+  register "c05.hist" ~doc:"mixed-operation histories of the other public iterators of read/cfi.rs: CfiEntriesIter clone+resume at every position; CallFrameInstructionIter clone+resume; UnwindTable next_row x j then into_current_row (valid exactly after a delivered row); EhHdrTable::lookup between two halves of a table iteration" (fun ~seed ~n emit ->
+    let r = mk_rng seed in
+    let secs = ref [] in
+    grid_sections (fun c es -> if List.length !secs < 40 || rand_int r 12 = 0 then secs := (c, ints_of_bytes (encode c es)) :: !secs);
+    (* E: every grid section kept, clones at all positions 0..4 *)
+    List.iter (fun ((c : cfg), bytes) ->
+      both emit (Printf.sprintf "c05.hist E %s %s 0 1 2 3 4" (cfg_toks c) (hex_of_ints bytes))
+        (fun dbg -> dump_model dbg c (bytes_of_ints bytes))) !secs;
+    for i = 1 to n do
+      if not (Streams.mine ()) then Streams.skip () else begin
+        let r = mk_rng (seed * 3000017 + i) in
+        let clean = rand_int r 3 <> 0 in
+        let (c, es) = uwi_section r ~clean in
+        let bytes0 = ints_of_bytes (encode c es) in
+        let bytes = if rand_int r 5 = 0 then mutate_body r (List.map int_of_n (S.offsets (sparams_of c) es)) bytes0 else bytes0 in
+        let bytes = if all_setloc_plain c false (bytes_of_ints bytes) then bytes else bytes0 in
+        let sec = bytes_of_ints bytes in
+        let j = rand_int r 8 in
+        match i mod 3 with
+        | 0 -> both emit (Printf.sprintf "c05.hist E %s %s %d %d" (cfg_toks c) (hex_of_ints bytes) j (j + 2))
+                 (fun dbg -> dump_model dbg c sec)
+        | 1 -> both emit (Printf.sprintf "c05.hist I %s %s %d" (cfg_toks c) (hex_of_ints bytes) j)
+                 (fun dbg -> hist_I_model dbg c sec)
+        | _ -> both emit (Printf.sprintf "c05.hist T %s %s %d" (cfg_toks c) (hex_of_ints bytes) j)
+                 (fun dbg -> hist_T_model dbg c sec j)
+      end
+    done;
+    for i = 1 to n / 3 + 6 do
+      if not (Streams.mine ()) then Streams.skip () else begin
+        let r = mk_rng (seed * 9000011 + i) in
+        match gen_wf_hdr_retry r ~nfde:(1 + rand_int r 8) 10 with
+        | Some h ->
+            let h = if rand_int r 4 = 0 then perturb_hdr r h else h in
+            let j = rand_int r 6 in
+            let a = List.nth h.addrs (rand_int r (List.length h.addrs)) in
+            let l = hcase_line "x" { h with addrs = [] } in
+            both emit (Printf.sprintf "c05.hist L %s %d %s" (String.sub l 2 (String.length l - 2)) j (Z.to_string a))
+              (fun dbg -> hist_L_model dbg h j a)
+        | None -> Streams.skip ()
+      end
+    done)
 let init () = ()
